@@ -163,6 +163,10 @@ func (ch c16) parseFn(e *c16env) wire.ParseFn {
 				e.entered <- "stmt"
 				<-e.gateStmt
 			}
+			if strings.HasPrefix(query, "panics") {
+				var rows [][]any
+				w.Row(rows[len(query)]) // index out of range: a bug of this statement
+			}
 			if strings.HasPrefix(query, "copy") {
 				cr, err := w.CopyIn(wire.TextFormat)
 				if err != nil {
@@ -897,6 +901,14 @@ func (ch c16) Run(c *core.Ctx) {
 		}
 		ch.sessionContextEnds(c, v)
 	}
+	// a statement function that panics when executed through the extended protocol (the pinned tree turns
+	// that into an ErrorResponse): the command is over all the same, a Close afterwards returns
+	for v := 0; v < 2; v++ {
+		if !c.Begin(70040+v) || c.NViol() >= 10 {
+			continue
+		}
+		ch.panicThenClose(c, v)
+	}
 	// the accept loop ends before Close for a reason of its own (Accept fails; the listener's owner
 	// closes it): Close afterwards still returns, repeated Close calls too
 	for v := 0; v < 2; v++ {
@@ -1050,4 +1062,54 @@ func (ch c16) sessionContextEnds(c *core.Ctx, variant int) {
 		c.Violate("serve-hang", "Serve did not return after Close", "", cs)
 	}
 	c.Eval(fmt.Sprintf("session context ends %d", variant), true)
+}
+
+func (ch c16) panicThenClose(c *core.Ctx, variant int) {
+	cs := map[string]any{"panicking_statement_variant": variant}
+	e := &c16env{entered: make(chan string, 8)}
+	env := hs.Start(ch.parseFn(e))
+	cl := hs.NewClient(env.Dial(nil))
+	if err := cl.StartupOK("u"); err != nil {
+		c.Violate("startup", "startup failed", err.Error(), cs)
+		return
+	}
+	in := append(append(pg.Parse("", "panics when executed", nil), pg.Bind("", "", nil, nil, nil)...), pg.Execute("", 0)...)
+	if variant == 0 {
+		in = append(in, pg.Sync()...)
+	}
+	out, closed := cl.Step(in)
+	c.Count("statements_panicking_in_execute_before_close", 1)
+	if !strings.Contains(pg.Types(mustMsgs(out)), "E") {
+		c.Inconclusive("panicking statement: no ErrorResponse (" + replyKinds(out) + ")")
+		return
+	}
+	if !closed && variant == 0 {
+		// the connection goes on: one more command, served as usual
+		if o, _ := cl.Step(pg.Query("plain after the panic")); !strings.HasSuffix(pg.Types(mustMsgs(o)), "CZ") {
+			c.Violate("after-panic", "the connection of a statement that panicked in Execute does not serve its next query", replyKinds(o), cs)
+		}
+	}
+	done := make(chan struct{})
+	go func() { env.Srv.Close(); env.Srv.Close(); close(done) }()
+	select {
+	case <-done:
+		c.Count("close_after_a_panicking_statement", 1)
+	case <-time.After(40 * time.Second):
+		dump, lib := core.ClassifyHang()
+		if len(lib) > 0 {
+			c.Violate("deadlock", "Close never returns after a statement function had panicked: "+strings.Join(lib, "; "), trim(dump, 3000), cs)
+		} else {
+			c.Inconclusive("Close watchdog fired (after a panicking statement) without a library-blocked goroutine")
+		}
+		c.Finish()
+		return
+	}
+	cl.C.CloseWrite()
+	cl.C.WaitClosed()
+	select {
+	case <-env.ServeErr:
+	case <-time.After(40 * time.Second):
+		c.Violate("serve-hang", "Serve did not return after Close", "", cs)
+	}
+	c.Eval(fmt.Sprintf("panic then close %d", variant), true)
 }
